@@ -139,7 +139,13 @@ func runLayout(r *Run, l *layout, trace bool, mutate string) (ok bool, outs []an
 	}
 	if l.Root != "/" && l.Root != "" {
 		rel, _ := filepath.Rel("/w", l.Root)
-		argv = append(argv, "-r", rel)
+		// the same root under its different spellings (the empty string is the working directory)
+		abs := filepath.Join(cwd, rel)
+		spell := []string{rel, "./" + rel, rel + "/", abs}
+		if rel == "." {
+			spell = []string{".", "", "./", abs, ""}
+		}
+		argv = append(argv, "-r", spell[int(atomic.AddInt64(&rootSpellSeq, 1))%len(spell)])
 	}
 	argv = append(argv, l.Inputs...)
 	res = fsx.Run(cwd, argv, nil, stdin, 20*time.Second, trace)
@@ -193,6 +199,8 @@ func absInputs(l *layout) []string {
 // FilesShardFraction > 1: only 1/FilesShardFraction of the layouts is explored
 // (the universe is cut into nsh*fraction parts, nsh of them run, rotating with the seed).
 var FilesShardFraction = 1
+
+var rootSpellSeq int64
 
 func modelFiles(r *Run, family string) modelStats {
 	nsh := 4
